@@ -785,6 +785,11 @@ func (p *Parser) parseForEach() ast.Expression {
 
 	// get the id
 	p.nextToken()
+	if !p.curTokenIs(token.IDENT) {
+		msg := fmt.Sprintf("expected a variable name in foreach but got %s around %s", p.curToken.Literal, p.curToken.Position())
+		p.errors = append(p.errors, msg)
+		return nil
+	}
 	expression.Ident = p.curToken.Literal
 
 	// If we find a "," we then get a second identifier too.
@@ -898,6 +903,13 @@ func (p *Parser) parseFunctionParameters() []*ast.Identifier {
 
 		if p.curTokenIs(token.EOF) {
 			p.errors = append(p.errors, "unterminated function parameters found end of file")
+			return nil
+		}
+
+		// Only names are allowed as parameters.
+		if !p.curTokenIs(token.IDENT) {
+			msg := fmt.Sprintf("expected a parameter name but got %s around %s", p.curToken.Literal, p.curToken.Position())
+			p.errors = append(p.errors, msg)
 			return nil
 		}
 
